@@ -62,6 +62,7 @@ def _parse_tlc(out, res):
         res.violated = m.group(1)
     m2 = re.search(r"Action property (\S+) is violated", out) or \
         re.search(r"Temporal property (\S+) was violated", out) or \
+        re.search(r"Temporal properties (\S+) .*were violated", out) or \
         re.search(r"Temporal properties were violated", out)
     if m2 and not res.violated:
         res.violated = m2.group(1) if m2.lastindex else "TemporalProperty"
